@@ -22,7 +22,9 @@ FLOATS = {"vo": 5.0, "rs": 0.21, "pwr": 0.35, "pwrs": 0.002, "rt": 7.5, "ii": 0.
 INTS = {"vo": 5, "rs": 2, "pwr": 1, "pwrs": 1, "rt": 9, "ii": 1, "iis": 1, "vdrop": 1, "eff": 1, "iq": 1, "ig": 1, "loss": 1}
 
 
-def value(key, form, rng):
+def value(key, form, rng, kind=""):
+    if kind == "Rectifier" and key == "vdrop" and form in ("int", "float") and rng.random() < 0.4:
+        return 0 if form == "int" else 0.0          # a bridge without diode drop = MOSFET mode (rs, ig, iq apply)
     if form == "int":
         return INTS[key] if rng.random() < 0.7 else -INTS[key]
     if form == "float":
@@ -113,7 +115,7 @@ def run_case(st, cid, rng, tmpdir):
     P = {}
     for k, f in zip(keys, forms):
         if f != "absent":
-            P[k] = value(k, f, rng)
+            P[k] = value(k, f, rng, kind)
     L = dict(LIMITS) if st["lim"] == "ok" else None
     # LinReg: the deprecated spelling iq of the ground current (file and constructor call both use it)
     if kind == "LinReg" and "ig" in P and isinstance(P["ig"], (int, float, dict)) and not isinstance(P["ig"], bool) and rng.random() < 0.3:
